@@ -47,6 +47,11 @@ def _menus():
                       f".Select(lambda e: e.{coll}('A').Select(lambda j: DeltaR(j.eta(), j.phi(), j.eta(), j.phi())))", True),
             "deltar": (f"ds.Select(lambda e: e.{coll}('A').Select(lambda j: DeltaR(j.eta(), j.phi(), j.eta(), j.phi())))", True),
             "docker": ("MetaData(ds, {'metadata_type': 'docker', 'image': 'other/image:1'})" + body, None),   # ok only with ext
+            # a documented math function called plainly, and a query that brings its OWN function under that name
+            "math_plain": (f"ds.Select(lambda e: e.{coll}('A').Select(lambda j: hypot(j.pt(), j.eta())))", True),
+            "math_own": ("MetaData(ds, {'metadata_type': 'add_cpp_function', 'name': 'hypot', 'include_files': ['my/Hypot.h'], 'arguments': ['a', 'b'], "
+                         "'code': ['double result = my_hypot(a, b);'], 'return_type': 'double'})"
+                         f".Select(lambda e: e.{coll}('A').Select(lambda j: hypot(j.pt(), j.eta())))", True),
         }
         # declarations on the very types the backend pre-declares defaults for (the defaults must not be contaminated)
         dt, dcoll = {"atlas": ("xAOD::TruthParticle", "TruthParticles"), "cms_aod": ("reco::Muon", "Muons"), "cms_miniaod": ("pat::Muon", "Muons")}[backend]
@@ -215,8 +220,8 @@ def enabled_events(history, max_exec):
         evs.append(("ext", i))
         evs += [("tr", i, q) for q in MENUS[b]]
         evs += [("again", i, q) for (hb, q) in handed if hb == b]
-        evs += [("apply", i, q) for q in (APPLY_ONLY if os.environ.get("VERIF_C07_TIER") == "thorough" else APPLY_ONLY[:3]) if q in MENUS[b]]
-        evs += [("wrfail", i, q) for q in (APPLY_ONLY if os.environ.get("VERIF_C07_TIER") == "thorough" else APPLY_ONLY[:2]) if q in MENUS[b]]
+        evs += [("apply", i, q) for q in (APPLY_ONLY if os.environ.get("VERIF_C07_TIER") == "thorough" else APPLY_ONLY[:2]) if q in MENUS[b]]
+        evs += [("wrfail", i, q) for q in (APPLY_ONLY if os.environ.get("VERIF_C07_TIER") == "thorough" else APPLY_ONLY[:1]) if q in MENUS[b]]
     return evs
 
 
